@@ -119,8 +119,71 @@ def option_dispatch_by_equality(ctx: Ctx):
         raise AnalysisError(f"C18.l: only {n_chain} option-dispatch chains found in the generator modules (6 confirmed by hand)")
 
 
+def op_prizes(ctx: Ctx):
+    """C18.v OP prizes lie in (0, 1] with the documented constructions (Fischetti et al. / Kool et al.): `const` all ones, `unif`
+    (1 + U{0..99}) / 100, `dist` (1 + int(99 * d_i / max_j d_j)) / 100 with d the distance of the customer FROM THE DEPOT.  Decided on
+    polynomial normal forms of the three alternatives of the stored `prize`: constant term 1/100, one further atom with
+    coefficient 1/100 which is the integer draw / the truncated scaled distance; the distance is the norm of a DIFFERENCE of the
+    depot and the customer coordinates.  (`1 - ...` puts prizes at or below zero; a norm of the sum is not a distance.)"""
+    from fractions import Fraction
+    from ..envs import EnvA, generator_slot
+    from ..tables import routing as TR_
+    env = EnvA(ctx.repo, TR_.ENVS["OPEnv"][0], "OPEnv")
+    g, gsl = generator_slot(ctx.repo, env.cls)
+    ctx.fn(gsl.fi)
+    pz = gsl.fr.ret.cells.get("prize")
+    if pz is None:
+        raise AnalysisError("OPGenerator._generate: no `prize` entry")
+
+    def alts(v):
+        v0 = nf.strip(v)
+        if v0.op in ("phi", "ifexp"):
+            return alts(v0.args[1]) + alts(v0.args[2])
+        return [v0]
+    av = alts(pz)
+    if len(av) != 3:
+        raise AnalysisError(f"OPGenerator._generate: {len(av)} alternatives of `prize` (3 documented prize types)")
+    seen = set()
+    for v in av:
+        p_ = nf.poly(v)
+        terms = dict(p_.terms)
+        c0 = terms.pop((), Fraction(0))
+        kind, ok, why = "?", False, p_.show(3)[:120]
+        if len(terms) == 1:
+            (mono, cf), = terms.items()
+            raw = nf.Poly.ATOMS[mono[0][0]] if len(mono) == 1 and mono[0][1] == 1 else None
+            trunc = raw is not None and raw.op == "meth" and raw.args[1] in ("int", "long", "floor")
+            atom = raw if trunc else (nf.strip(raw, True) if raw is not None else None)
+            f_ = nf._fn(atom) if atom is not None else None
+            if atom is not None and not trunc and f_ == "torch.ones" and c0 == 0 and cf == 1:
+                kind, ok = "const", True
+            elif atom is not None and not trunc and f_ == "torch.randint" and c0 == Fraction(1, 100) and cf == Fraction(1, 100):
+                lohi = [a for a in atom.args[1:3]]
+                kind, ok = "unif", len(lohi) == 2 and vg.is_const(lohi[0], 0) and vg.is_const(lohi[1], 100)
+                why += f"; integer draw from [0, 100): {ok}"
+            elif trunc and c0 == Fraction(1, 100) and cf == Fraction(1, 100):
+                inner = nf.poly(atom.args[0])
+                # 99 * d / max(d): one monomial, coefficient 99, a norm in the numerator and its max in the denominator
+                norms = [n for n in vg.walk(atom.args[0]) if (n.op == "meth" and n.args[1] == "norm") or (nf._fn(n) or "") in ("torch.norm", "torch.linalg.norm")]
+                diff_ok = False
+                for n in norms:
+                    src = nf.poly(n.args[0] if n.op == "meth" else n.args[1])
+                    cfs = sorted(c for m_, c in src.terms.items() if m_)
+                    diff_ok = diff_ok or (len(cfs) == 2 and cfs[0] == -1 and cfs[1] == 1 and src.const_term() == 0)
+                has_max = any(n.op == "meth" and n.args[1] in ("max", "amax") for n in vg.walk(atom.args[0]))
+                coef99 = len(inner.terms) == 1 and list(inner.terms.values())[0] == 99
+                kind, ok = "dist", bool(norms) and diff_ok and has_max and coef99
+                why += f"; truncated 99 * d / max d: coefficient {coef99}, max {has_max}, d = norm of (depot - customer): {diff_ok}"
+        seen.add(kind)
+        ctx.ob("C18.v", f"OPGenerator._generate:prize:{kind}", ok, gsl.fi.loc, f"prize = {why}" + ("" if ok else " -- not the documented construction: prizes leave (0, 1] or no longer follow the stated distribution"),
+               construct=f"OPGenerator._generate:prize-form:{kind}")
+    if seen != {"const", "unif", "dist"} and "?" not in seen:
+        raise AnalysisError(f"OPGenerator._generate: prize alternatives recognised as {sorted(seen)}")
+
+
 def run(ctx: Ctx):
     option_dispatch_by_equality(ctx)
+    op_prizes(ctx)
     base = ctx.repo.get_class(UT, "Generator")
     gens = [c for c in ctx.repo.subclasses(base) if c.module.name.startswith("rl4co.envs")]
     if len(gens) < 18:
